@@ -203,3 +203,31 @@ func c12RejClass(detail string) string {
 	}
 	return c12ErrClass(d)
 }
+
+// c12ErrClass strips quoted fragments and positions from an error text so that it can be used
+// as a counter key / signature component.
+func c12ErrClass(s string) string {
+	if i := strings.Index(s, "\n"); i >= 0 {
+		s = s[:i]
+	}
+	var sb strings.Builder
+	inq := false
+	for _, r := range s {
+		switch {
+		case r == '"':
+			inq = !inq
+			if !inq {
+				sb.WriteString(`"…"`)
+			}
+		case inq:
+		case r >= '0' && r <= '9':
+		default:
+			sb.WriteRune(r)
+		}
+	}
+	out := []rune(sb.String())
+	if len(out) > 90 {
+		out = out[:90]
+	}
+	return string(out)
+}
